@@ -152,7 +152,7 @@ func execStatement(t *testing.T, gs []GraphData, text string, k ExecKnobs, fault
 	tape := sim.NewTape(k.Sched)
 	sim.SetMapSeed(k.Sched | 1)
 	sim.SetProcs(k.Procs)
-	cfg := sim.Config{Preempt: k.Preempt, PreemptMean: 200, MaxSteps: 6000000, Trace: traceOn}
+	cfg := sim.Config{Preempt: k.Preempt, PreemptMean: 200, MaxSteps: int64(envInt("BW_MAXSTEPS", 6000000)), Trace: traceOn}
 	var ss *simStore
 	er.res, er.bubble = simRun(t, tape, cfg, func(r *sim.Runtime) {
 		// the context lives inside the bubble (its done channel must not be closed from outside); it is never
